@@ -8,3 +8,9 @@ See Also:
 from .server import *
 
 from .._generated.pub import *
+
+# Star-imports also copy sub-module attributes of the imported packages, which can shadow this
+# package's own sub-modules; re-bind them to the modules the import system resolved.
+import sys as _sys
+
+server = _sys.modules[__name__ + ".server"]
